@@ -42,6 +42,10 @@ GhostInit(S) ==
    lastw |-> EmptyFn,    \* key -> [actor, kind, opid] of the write that began last
    stale |-> {},         \* ids whose TTL index entry was registered with an expiry the entry no longer has (D13)
    taintK |-> EmptyFn,   \* key -> id of the recorded by-key / store-index race that hit it (D11, D12, D13)
+   pairs |-> EmptyFn,    \* key -> [put, del, putDone, delDone, valid]: `put k` then `delete k` by one thread, nobody else writing k (C11)
+   delold |-> EmptyFn,   \* delete operation -> values of its key that were written before the delete was issued (same thread, or by calls that had returned)
+   deadv |-> EmptyFn,    \* key -> values that an acknowledged delete has removed for good (C11: they were submitted before it)
+   absent |-> {},        \* keys whose last writes are `put k ; delete k` by one thread: absent once everything is applied (C11)
    dead |-> {}]          \* background threads that died
 
 WritesOn(G, k) == {id \in DOMAIN G.ops : G.ops[id].k = k /\ G.ops[id].kind # "none"}
@@ -90,6 +94,11 @@ FinishWrite(G, S2, opid, st) ==
   ELSE LET w == G.ops[opid]
            G1 == CompleteWrite(G, w.k, opid)
        IN [G1 EXCEPT !.e3 = Expect3(G, S2, w, st),
+                     !.deadv = IF w.kind = "del" /\ opid \in DOMAIN G.delold /\ st \in {StAccepted, StRejNoKey}
+                               THEN With(@, w.k, Get(@, w.k, {}) \cup G.delold[opid]) ELSE @,
+                     !.delold = IF opid \in DOMAIN @ THEN Without(@, opid) ELSE @,
+                     !.pairs = [k \in DOMAIN @ |-> IF @[k].put = opid THEN [@[k] EXCEPT !.putDone = TRUE]
+                                                    ELSE IF @[k].del = opid THEN [@[k] EXCEPT !.delDone = TRUE] ELSE @[k]],
                      !.ops = Without(@, opid),
                      !.refusals = IF w.kind \in {"put", "pou"} /\ ~w.inplace /\ st \in {StRejNoSpace, StRejTooHeavy} THEN @ + 1 ELSE @]
 
@@ -117,6 +126,15 @@ GhostBegin(G, S, a, op) ==
                     !.pend = IF op.op = "del" \/ v < 0 THEN @ ELSE With(@, k, Get(@, k, {}) \cup {[val |-> v, opid |-> op.id]}),
                     !.rd = [r \in DOMAIN @ |-> IF k \in DOMAIN @[r] /\ v >= 0 THEN [@[r] EXCEPT ![k] = @ \cup {v}] ELSE @[r]],
                     !.rd3 = [r \in DOMAIN @ |-> IF k \in DOMAIN @[r] THEN [@[r] EXCEPT ![k].ok = FALSE] ELSE @[r]],
+                    !.absent = IF op.op = "del" /\ lw.actor = a /\ lw.kind = "put" /\ \A id \in others : G.ops[id].actor = a
+                               THEN @ \cup {k} ELSE @ \ {k},
+                    !.pairs = IF op.op = "del" /\ lw.actor = a /\ lw.kind = "put" /\ \A id \in others : G.ops[id].actor = a
+                              THEN With(@, k, [put |-> lw.opid, del |-> op.id, putDone |-> lw.opid \notin DOMAIN G.ops, delDone |-> FALSE, valid |-> TRUE])
+                              ELSE IF k \in DOMAIN @ THEN [@ EXCEPT ![k].valid = FALSE] ELSE @,
+                    !.delold = IF op.op = "del"
+                               THEN With(@, op.id, (IF Present(S, k) THEN {S.store[k].val} ELSE {})
+                                                   \cup {G.ops[id].v : id \in {x \in others : G.ops[x].v >= 0 /\ (G.ops[x].actor = a \/ G.ops[x].returned)}})
+                               ELSE @,
                     !.lastw = With(@, k, [actor |-> a, kind |-> op.op, opid |-> op.id])]
   ELSE IF IsReadOp(op)
   THEN LET ks == ReadKeys(op) IN
@@ -167,9 +185,12 @@ GhostNext(G, S, a, site, inp, S2, o) ==
       G4 == FinishAll(G3b, S2, NewlyDone(S, S2))
       G5 == IF IsCaller(a) /\ o.next = "C_Idle" /\ IsWriteOp(o.op) /\ (o.ret.st = StErr \/ o.ret.panic)
             THEN FinishWrite(G4, S2, o.op.id, o.ret.st) ELSE G4
+      \* the call has returned (its command, if any, is in the queue)
+      G5b == IF IsCaller(a) /\ o.next = "C_Idle" /\ IsWriteOp(o.op) /\ o.op.id \in DOMAIN G5.ops
+             THEN [G5 EXCEPT !.ops[o.op.id].returned = TRUE] ELSE G5
       \* a delete hides the key as soon as the call has returned
-      G6 == IF IsCaller(a) /\ o.next = "C_Idle" /\ o.op.op = "del" /\ o.op.id \in DOMAIN G5.ops
-            THEN CompleteWrite(G5, o.op.k, o.op.id) ELSE G5
+      G6 == IF IsCaller(a) /\ o.next = "C_Idle" /\ o.op.op = "del" /\ o.op.id \in DOMAIN G5b.ops
+            THEN CompleteWrite(G5b, o.op.k, o.op.id) ELSE G5b
       \* an in-place upsert is visible as soon as the call has returned
       G7 == IF IsCaller(a) /\ o.next = "C_Idle" /\ o.op.op = "pou" /\ o.op.id \in DOMAIN G6.ops /\ G6.ops[o.op.id].inplace
             THEN CompleteWrite(G6, o.op.k, o.op.id) ELSE G6
@@ -500,6 +521,16 @@ J_C11(S, a, site, inp, S2, o, G, G2) ==
       THEN <<V("C11", "violation", "", "a completed acknowledgement changed (command applied twice?)")>> ELSE <<>>)
   \o (IF Quiescent(S2) /\ WorkerAlive(S2) /\ G2.dead = {} /\ (\E n \in DOMAIN S2.ack : ~S2.ack[n].done)
       THEN <<V("C11", "violation", "", "a queued command was dropped: its acknowledgement is still pending at quiescence")>> ELSE <<>>)
+  \o (IF ~S2.shut /\ ~G.shutSeen /\ G2.dead = {}
+         /\ \E k \in DOMAIN G2.pairs : LET q == G2.pairs[k] IN
+               q.valid /\ q.putDone /\ q.delDone /\ Present(S2, k)
+               /\ ~(k \in DOMAIN G.pairs /\ G.pairs[k].put = q.put /\ G.pairs[k].del = q.del /\ G.pairs[k].putDone /\ G.pairs[k].delDone)
+      THEN <<V("C11", "violation", "", "put followed without awaiting by a delete of the same key (same thread): both are complete and the key is present")>> ELSE <<>>)
+  \o (IF ~S2.shut /\ ~G.shutSeen /\ G2.dead = {}
+         /\ \E k \in DOMAIN G2.deadv \cap DOMAIN S2.store : S2.store[k].val \in G2.deadv[k]
+      THEN <<V("C11", "violation", "", "a value written before an acknowledged delete of its key is in the cache after it (delete dropped or applied out of order)")>> ELSE <<>>)
+  \o (IF Quiescent(S2) /\ ~S2.shut /\ ~G.shutSeen /\ G2.dead = {} /\ G2.ops = EmptyFn /\ \E k \in G2.absent : Present(S2, k)
+      THEN <<V("C11", "violation", "", "put followed by delete of the same key (same thread) left the key present at quiescence")>> ELSE <<>>)
   \o (IF a = "worker" /\ S.lc[a].cmd.kind = "del" /\ o.next = "W_Recv" /\ site # "W_Recv"
          /\ S.lc[a].cmd.ack \in DOMAIN G.ackop /\ G.ackop[S.lc[a].cmd.ack] \in DOMAIN G.ops
          /\ G.ops[G.ackop[S.lc[a].cmd.ack]].pd /\ Present(S2, S.lc[a].cmd.key) /\ ~S2.shut
@@ -565,12 +596,32 @@ J_C16r(S, a, site, inp, S2, o, G, G2) ==
 -----------------------------------------------------------------------------
 (* C17: no panic, no dead background thread *)
 
+Huge == 1073741824   \* weights at or above this stand for values near i64::MAX (two-zone encoding of the traces)
+HugeAround(S, a) == S.lc[a].w >= Huge \/ S.lc[a].op.w >= Huge \/ S.used >= Huge \/ \E id \in DOMAIN S.kw : S.kw[id].w >= Huge
+
 J_C17(S, a, site, inp, S2, o, G, G2) ==
   (IF o.next = "DEAD" /\ a \in {"worker", "sweeper", "consumer"}
-   THEN <<V("C17", "violation", "", "a background thread terminated by a panic")>> ELSE <<>>)
+   THEN IF HugeAround(S, a) /\ site \in {"K_Update", "K_AddUsed", "K_DelUsed", "A_Space"}
+        THEN <<V("C17", "known", "D10", "unchecked i64 weight arithmetic overflowed on a background thread")>>
+        ELSE <<V("C17", "violation", "", "a background thread terminated by a panic")>> ELSE <<>>)
   \o (IF IsCaller(a) /\ o.next \in {"C_Idle", "DEAD"} /\ o.ret.panic
          /\ ~(o.op.op = "pou" /\ ~HasV(o.op) /\ site = "C_PouUpdate")
-      THEN <<V("C17", "violation", "", "an API call with valid arguments panicked")>> ELSE <<>>)
+      THEN IF HugeAround(S, a) /\ site = "C_PouWeightOf"
+           THEN <<V("C17", "known", "D10", "unchecked i64 weight arithmetic overflowed in the caller")>>
+           ELSE <<V("C17", "violation", "", "an API call with valid arguments panicked")>> ELSE <<>>)
+
+-----------------------------------------------------------------------------
+(* judges of the end of a run: every caller has finished its program (or nothing can move any more) *)
+
+JudgeEnd(S, G, stuck) ==
+  LET pending == {n \in DOMAIN S.ack : ~S.ack[n].done}
+      workerPanicked == "worker" \in G.dead \/ S.pc["worker"] = "DEAD"
+  IN (IF pending # {} /\ ~workerPanicked /\ G.shutDone
+      THEN <<V("C13", "violation", "", "an acknowledgement handed out before or during shutdown never completed")>> ELSE <<>>)
+     \o (IF pending # {} /\ ~workerPanicked /\ ~G.shutSeen
+         THEN <<V("C11", "violation", "", "a queued command was never applied: its acknowledgement is still pending at the end of the run")>> ELSE <<>>)
+     \o (IF ~S.shut /\ ~G.shutSeen /\ ~workerPanicked /\ pending = {} /\ \E k \in G.absent : Present(S, k)
+         THEN <<V("C11", "violation", "", "put followed by delete of the same key (same thread) left the key present")>> ELSE <<>>)
 
 -----------------------------------------------------------------------------
 
